@@ -1,9 +1,22 @@
 package types
 
 import (
+	"unicode/utf8"
+
 	sdk "github.com/cosmos/cosmos-sdk/types"
 	sdkerrors "github.com/cosmos/cosmos-sdk/types/errors"
 )
+
+// validText reports whether every given text field is valid UTF-8. Anything else cannot be
+// represented in JSON: a genesis export would silently replace the offending bytes.
+func validText(fields ...string) bool {
+	for _, f := range fields {
+		if !utf8.ValidString(f) {
+			return false
+		}
+	}
+	return true
+}
 
 const (
 	RouterKey = ModuleName // defined in keys.go file
@@ -54,6 +67,10 @@ func (msg MsgRegisterBeacon) ValidateBasic() error {
 
 	if len(msg.Moniker) > 64 {
 		return sdkerrors.Wrap(ErrContentTooLarge, "moniker too big. 64 character limit")
+	}
+
+	if !validText(msg.Moniker, msg.Name) {
+		return sdkerrors.Wrap(sdkerrors.ErrInvalidRequest, "moniker and name must be valid UTF-8 text")
 	}
 
 	return nil
@@ -113,6 +130,9 @@ func (msg MsgRecordBeaconTimestamp) ValidateBasic() error {
 	}
 	if len(msg.Hash) > 66 {
 		return sdkerrors.Wrap(ErrContentTooLarge, "hash too big. 66 character limit")
+	}
+	if !validText(msg.Hash) {
+		return sdkerrors.Wrap(sdkerrors.ErrInvalidRequest, "hash must be valid UTF-8 text")
 	}
 
 	return nil
